@@ -309,6 +309,7 @@ type FieldResult struct {
 type Composition struct {
 	Source      *Source
 	Outcomes    int // feasible parser outcomes
+	Rejections  int // rejecting parser outcomes (ExpectReject)
 	Fields      []FieldResult
 	Assumed     []string
 	Problems    []string
@@ -982,6 +983,9 @@ type ComposeOpts struct {
 	ExactLen bool
 	// Params: integer parameters of the parser given by its caller (name without $ -> value).
 	Params map[string]lin.Form
+	// ExpectReject: the stream is malformed in a way the parser must answer with an error: a path on which it may return
+	// without error is the violation; nothing else is compared.
+	ExpectReject bool
 }
 
 // compare walks the parsed structure type and compares every leaf with the written structure's field.
